@@ -1,42 +1,74 @@
+mod checks;
 mod exec;
+mod genr;
+mod monitors;
 mod refcodec;
 mod reply;
 mod rng;
+mod runner;
 mod steps;
+mod trace;
 mod vtime;
 mod world;
 
-use exec::*;
-use steps::*;
+use runner::*;
+use std::time::Duration;
+
+fn usage() -> ! {
+    eprintln!("usage: mqverif check <ID> <quick|thorough> | replay <file> | list");
+    std::process::exit(64);
+}
 
 fn main() {
-    // smoke: connect, publish q1, poll
-    let cfg = CaseCfg::default();
-    let steps = vec![
-        Step::Connect(ConnectSpec::default()),
-        Step::Publish(PubSpec {
-            topic: "a/b".into(),
-            payload: PayloadSpec::Bytes(b"hello".to_vec()),
-            qos: 1,
-            retain: false,
-            props: vec![],
-            correlate: None,
-            cancel_at: None,
-        }),
-        Step::Poll { max_wait: 1_000_000, cancel_at: None },
-        Step::Poll { max_wait: 1_000_000, cancel_at: None },
-    ];
-    let mut d = Script::new(steps);
-    let (log, world) = run_case(&cfg, 1, &mut d, 100);
-    for o in &log.ops {
-        println!("{} -> {:?} pend={}", o.kind, o.outcome, o.pendings);
-    }
-    let w = world.borrow();
-    for c in &w.conns {
-        for p in &c.out.packets {
-            println!("conn{} {:?}", c.idx, p.pkt);
+    let args: Vec<String> = std::env::args().collect();
+    install_panic_hook();
+    let verif_dir = std::env::var("VERIF_DIR").unwrap_or_else(|_| "/verif".to_string());
+    let all = checks::all();
+    match args.get(1).map(|s| s.as_str()) {
+        Some("list") => {
+            for c in &all {
+                println!("{} {}", c.id(), c.level());
+            }
         }
-        println!("err={:?}", c.out.error);
+        Some("check") => {
+            let id = args.get(2).unwrap_or_else(|| usage());
+            let tier = match std::env::var("VERIF_TIER").ok().as_deref().or(args.get(3).map(|s| s.as_str())) {
+                Some("thorough") => Tier::Thorough,
+                _ => Tier::Quick,
+            };
+            let seed = std::env::var("VERIF_SEED").ok().and_then(|s| s.parse::<u64>().ok()).unwrap_or(1);
+            let threads = std::env::var("VERIF_THREADS").ok().and_then(|s| s.parse().ok()).unwrap_or(16);
+            let Some(check) = all.iter().find(|c| c.id() == id) else {
+                eprintln!("unknown check {}", id);
+                std::process::exit(64);
+            };
+            let cfg = RunCfg {
+                tier,
+                seed,
+                threads,
+                verif_dir,
+                wall_cap: Duration::from_secs(if tier == Tier::Quick { 150 } else { 3000 }),
+            };
+            let code = run_check(check.as_ref(), &cfg);
+            std::process::exit(code);
+        }
+        Some("replay") => {
+            let path = args.get(2).unwrap_or_else(|| usage());
+            let text = std::fs::read_to_string(path).expect("read replay file");
+            let v: serde_json::Value = serde_json::from_str(&text).expect("parse replay file");
+            let id = v["property"].as_str().unwrap();
+            let tier = if v["tier"].as_str() == Some("thorough") { Tier::Thorough } else { Tier::Quick };
+            let seed = v["seed"].as_u64().unwrap();
+            let wl = v["workload"].as_u64().unwrap() as usize;
+            let index = v["index"].as_u64().unwrap();
+            let check = all.iter().find(|c| c.id() == id).expect("unknown check");
+            println!("replaying {} workload {} index {} seed {} ({})", id, wl, index, seed, v["signature"]);
+            let out = run_guarded(check.as_ref(), wl, seed, index, tier, true);
+            for vi in &out.violations {
+                println!("VIOLATION-DETAIL {} :: {}", vi.sig, vi.msg);
+            }
+            std::process::exit(if out.violations.is_empty() { 0 } else { 1 });
+        }
+        _ => usage(),
     }
-    println!("{}", serde_json::to_string(&w.events).unwrap().len());
 }
